@@ -1,0 +1,117 @@
+//go:build verif
+
+package tsi
+
+import (
+	"sort"
+
+	"github.com/VictoriaMetrics/VictoriaMetrics/lib/encoding"
+	"github.com/openGemini/openGemini/lib/util/lifted/vm/protoparser/influx"
+)
+
+// Accessors for the C13 check of /verif. Add-only, compiled only with -tags verif.
+//   - VerifIndexParts decodes the parts of the index table: which tsids have a key->tsid item,
+//     a tsid->key item (with the series key) and tag->tsids rows in which part, and the flags
+//     of the part (being merged / being purged);
+//   - VerifBeginMerge / VerifMergeParts run a merge of chosen parts of the index table
+//     (mergeset.Table.VerifBeginMerge), the background mergers being stopped.
+
+// VerifIndexSeries is what one part holds of one tsid.
+type VerifIndexSeries struct {
+	TSID     uint64
+	Key      string // series key of the tsid->key item ("" if the part has none for the tsid)
+	KeyToID  bool   // a key->tsid item names the tsid
+	IDToKey  bool   // a tsid->key item of the tsid
+	TagRows  int    // tag->tsids rows that list the tsid
+	Deleted  bool   // an item of the deleted-tsid table
+	OtherRaw int
+}
+
+// VerifIndexPart is one part of the index table, series ascending by tsid.
+type VerifIndexPart struct {
+	Path       string
+	Items      int
+	Other      int // items of other namespaces
+	InMerge    bool
+	DeleteMark bool
+	Series     []VerifIndexSeries
+}
+
+// VerifIndexParts lists the parts of the table in table order.
+func (idx *MergeSetIndex) VerifIndexParts() ([]VerifIndexPart, error) {
+	parts, err := idx.tb.VerifParts()
+	if err != nil {
+		return nil, err
+	}
+	const u64 = 8
+	out := make([]VerifIndexPart, 0, len(parts))
+	for _, p := range parts {
+		vp := VerifIndexPart{Path: p.Path, Items: len(p.Items), InMerge: p.InMerge, DeleteMark: p.DeleteMark}
+		m := map[uint64]*VerifIndexSeries{}
+		get := func(tsid uint64) *VerifIndexSeries {
+			s := m[tsid]
+			if s == nil {
+				s = &VerifIndexSeries{TSID: tsid}
+				m[tsid] = s
+			}
+			return s
+		}
+		for _, it := range p.Items {
+			switch {
+			case len(it) == u64:
+				// the deleted-tsid table stores bare tsids
+				get(encoding.UnmarshalUint64(it)).Deleted = true
+			case len(it) > u64+1 && it[0] == nsPrefixKeyToTSID && it[len(it)-u64-1] == kvSeparatorChar:
+				get(encoding.UnmarshalUint64(it[len(it)-u64:])).KeyToID = true
+			case len(it) > u64+1 && it[0] == nsPrefixTSIDToKey:
+				s := get(encoding.UnmarshalUint64(it[1 : 1+u64]))
+				s.IDToKey = true
+				func() {
+					defer func() {
+						if r := recover(); r != nil {
+							s.Key = "?"
+						}
+					}()
+					s.Key = string(influx.Parse2SeriesKey(it[1+u64:], nil, true))
+				}()
+			case it[0] == nsPrefixTagToTSIDs:
+				// ns | key | sep | value | sep | tsid+
+				seps, off := 0, -1
+				for i := 1; i < len(it); i++ {
+					if it[i] == tagSeparatorChar {
+						seps++
+						if seps == 2 {
+							off = i + 1
+							break
+						}
+					}
+				}
+				if off < 0 || (len(it)-off)%u64 != 0 || len(it) == off {
+					vp.Other++
+					continue
+				}
+				for tail := it[off:]; len(tail) > 0; tail = tail[u64:] {
+					get(encoding.UnmarshalUint64(tail)).TagRows++
+				}
+			default:
+				vp.Other++
+			}
+		}
+		for _, s := range m {
+			vp.Series = append(vp.Series, *s)
+		}
+		sort.Slice(vp.Series, func(i, j int) bool { return vp.Series[i].TSID < vp.Series[j].TSID })
+		out = append(out, vp)
+	}
+	return out, nil
+}
+
+// VerifBeginMerge is mergeset.Table.VerifBeginMerge on the index table.
+func (idx *MergeSetIndex) VerifBeginMerge(positions []int) (int, func() error) {
+	return idx.tb.VerifBeginMerge(positions)
+}
+
+// VerifMergeParts is mergeset.Table.VerifMergeParts on the index table.
+func (idx *MergeSetIndex) VerifMergeParts(positions []int) (int, error) {
+	return idx.tb.VerifMergeParts(positions)
+}
